@@ -88,7 +88,7 @@ theorem merge_stats_mean (first second : Res) (rest : List Res) (m : Res)
     constructor
     · rw [lookup_map_val]
       obtain ⟨v, hv⟩ := Option.isSome_iff_exists.mp ((lookup_isSome_iff first.stats k).mpr hk)
-      simp only [hv, Option.map_some, Option.some.injEq, List.map_cons, List.sum_cons, List.length_cons]
+      simp only [hv, Option.map_some, Option.some.injEq, List.map_cons, List.sum_cons, List.length_cons, meanStat]
       simp [stat, hv]
     · intro r hr
       rw [lookup_isSome_iff]
@@ -148,10 +148,7 @@ theorem merge_concat_otherwise_in_order (first second : Res) (rest : List Res) (
     have hfirst : arr first k = a := by simp [arr, ha]
     unfold arr
     rw [combine_arrays_append, lookup_map_val, ha]
-    simp only [Option.map_some, Option.getD_some, List.map_cons, List.flatten_cons]
-    have : (lookup first.arrays k).getD [] = a := by rw [ha]; rfl
-    simp only [arr] at hfirst ⊢
-    rw [this]
+    simp only [Option.map_some, Option.getD_some, List.map_cons, List.flatten_cons, catArr, arr, ha]
 
 /-- the strategy depends only on the per-key lengths: **insertion order of the arrays in the
 individual results does not matter** (this is what fix c19f14b repaired) -/
